@@ -302,6 +302,7 @@ def pol_tweak(pol, cfg, rng):
     pol['partial_show'] = rng.random() < 0.2
     if rng.random() < 0.1:
         pol['muck'] = 'any'
+        pol['muck_p'] = rng.choice([0.1, 0.6, 0.9])
 
 
 def nontrivial(ctx):
